@@ -11,7 +11,9 @@ LINES = ['', 'a', '-', '-a', '- a', '- -a', 'From x', '-----BEGIN PGP SIGNATURE-
          # whitespace other than space and tab is NOT removed by RFC 4880 7.1; separators other than CR / LF do not end a line
          'a\x0c', '\x0c', 'a\u00a0', 'a\x0b', 'x\u2028y\x85z',
          # a carriage return that is not followed by a line feed is a character of the line (GnuPG 2.2.40 signs it so: vectors clear.*.doc.cr.txt.asc)
-         'x\ry']
+         'x\ry',
+         # ... so a dash after any of them does not begin a line (no dash-escaping there), a dash after a real line end does
+         'a\x0b-b\x0c-c\x1c-\x1d-\x1e-\x85-\u2028-\u2029-', 'x\r-y']
 HASHES = ['SHA256', 'SHA512', 'SHA1', 'SHA384', 'SHA224', 'MD5']
 HASH_HDR = {'SHA256': 'SHA256', 'SHA512': 'SHA512', 'SHA1': 'SHA1', 'SHA384': 'SHA384', 'SHA224': 'SHA224', 'MD5': 'MD5'}
 
@@ -31,8 +33,8 @@ class Prop(object):
     ID = 'C11'
     LEVEL = 'model_checking'
     TECHNIQUE = 'exhaustive enumeration of texts over an adversarial line alphabet on the real cleartext writer/reader/signer/verifier, differential against an independent RFC 4880 section 7 implementation'
-    RULE = ('every sequence of 0..3 lines (thorough 0..4 over a reduced alphabet) over a 21-line alphabet (empty, dash lines, "- " lines, From lines, armor-looking lines, '
-            'trailing space / tab, blank, non-ASCII, non-BMP, 1000 characters, trailing form feed / vertical tab / no-break space, embedded U+2028 / U+0085, carriage returns without line feed) x joiner {LF, CRLF} x final line end {no, yes}; each written and read back by PGPy, '
+    RULE = ('every sequence of 0..3 lines (thorough 0..4 over a reduced alphabet) over a 23-line alphabet (empty, dash lines, "- " lines, From lines, armor-looking lines, '
+            'trailing space / tab, blank, non-ASCII, non-BMP, 1000 characters, trailing form feed / vertical tab / no-break space, embedded U+2028 / U+0085, carriage returns without line feed, a dash after each separator that is not a line end) x joiner {LF, CRLF} x final line end {no, yes}; each written and read back by PGPy, '
             'parsed and verified by the reference (7.1 canonical text), and written by the reference and verified by PGPy; hashes, signer counts and signing '
             'algorithms on a slice. One state = one (text, direction).')
     ASSUMPTIONS = ['refpgp.armor / refpgp.sig implement RFC 4880 7 and 7.1 (cross-checked at setup with the GnuPG-made cleartext fixtures)',
@@ -52,6 +54,7 @@ class Prop(object):
                 for b in red:
                     u.append(('texts', {'first': a, 'second': b, 'max': 4, 'alphabet': red}))
         u.append(('slices', {}))
+        u.append(('inputs', {}))
         u.append(('long', {}))
         u.append(('gpg', {}))
         return u
@@ -65,23 +68,33 @@ class Prop(object):
             self._c = (key, raw, key.pubkey)
         return self._c
 
-    def _one_text(self, r, text, case, halg='SHA256', signers=None):
+    def _one_text(self, r, text, case, halg='SHA256', signers=None, form='str'):
         import pgpy
+        from mc import alias
         from pgpy.constants import HashAlgorithm
         key, raw, pub = self._ctx()
         signers = signers or [(key, raw, pub)]
         cls = classify(text)
         one = dict(case, text=text, hash=halg)
         r.states += 2
-        label = 'text %r' % (text if len(text) < 60 else text[:57] + '...')
+        if form != 'str':
+            label = 'text %r given as %s' % (text if len(text) < 60 else text[:57] + '...', form)
+        if form == 'str':
+            label = 'text %r' % (text if len(text) < 60 else text[:57] + '...')
         # ---- PGPy writes, PGPy reads, reference reads
         probs = []
         stage = None
         try:
-            m = pgpy.PGPMessage.new(text, cleartext=True)
+            # the text as the caller has it: a string, octets, or a buffer the caller goes on using for something else (mc/alias.py)
+            src = text if form == 'str' else text.encode('utf-8') if form == 'bytes' else bytearray(text.encode('utf-8'))
+            m = pgpy.PGPMessage.new(src, cleartext=True, **({'encoding': 'utf-8'} if form == 'bytearray+encoding' else {}))
             for k, rw, pb in signers:
                 m |= k.sign(m, hash=HashAlgorithm[halg], created=K.dt(K.T0 + 77))
+            alias.scribble(src)
             out = str(m)
+            if m.message != text:
+                stage = 'live-text'
+                probs.append('the message object made from %s shows the text %r' % (form, m.message[:60]))
             r.transitions += 1
             # (2) independent reader: dash-escaping, Hash header, un-escape once
             try:
@@ -258,6 +271,21 @@ class Prop(object):
                     text = head + eol + 'tail line' + eol + ('cd' * 40000) + eol + 'end'
                     self._one_text(r, text, dict(base, only=n), 'SHA256')
         r.samples.append({'long_texts': n, 'sizes': [65536, 131072]})
+        return r
+
+    def c_inputs(self, case):
+        """The text handed over as octets and as a buffer the caller re-uses afterwards: every line of the alphabet alone and every pair of lines."""
+        r = Res()
+        case = {k: v for k, v in case.items() if k not in ('text', 'hash')}
+        texts = [l for l in LINES] + [a + '\n' + b + '\n' for a in LINES[:9] for b in LINES[:9]]
+        n = 0
+        for ti, t in enumerate(texts):
+            for form in ('bytes', 'bytearray', 'bytearray+encoding'):
+                if 'only' in case and case['only'] != [ti, form]:
+                    continue
+                n += 1
+                self._one_text(r, t, dict(case, only=[ti, form]), 'SHA256', None, form)
+        r.samples.append({'input_forms': ['bytes', 'bytearray', 'bytearray+encoding'], 'texts': len(texts)})
         return r
 
     def c_slices(self, case):
